@@ -1,6 +1,7 @@
 package rules
 
 import (
+	"strings"
 	"fmt"
 	"go/token"
 	"go/types"
@@ -421,6 +422,55 @@ func c11(r *engine.Report, p *engine.Program) {
 		}
 		r.Check("R3-cost-selection", "runProtocol: connection cost = nodeCost[announced ID] when configured, else the backend's cost", rp.Pos(), ok,
 			"bi.nodeCost is looked up under the announced ID before the insertion; on the hit edge (only) the value becomes the connection's Cost", why+": the link is advertised and agreed with a cost the operator did not configure for this peer")
+	}
+	// R3b the backend's admission policy is shared by all of its sessions: a session never writes it
+	{
+		bi := p.NamedType("netceptor", "BackendInfo")
+		var bad []string
+		n := 0
+		if bi != nil {
+			st := bi.Underlying().(*types.Struct)
+			for i := 0; i < st.NumFields(); i++ {
+				for _, a := range p.FieldAccesses(st.Field(i)) {
+					if engine.IsMock(a.Fn) {
+						continue
+					}
+					switch a.Kind {
+					case engine.AccStore, engine.AccMapUpdate, engine.AccMapDelete, engine.AccAppend:
+						n++
+						name := engine.FuncName(engine.Outermost(a.Fn))
+						if name == "(*netceptor.Netceptor).runProtocol" || privateHelperOf(p, engine.Outermost(a.Fn), map[string]bool{"(*netceptor.Netceptor).runProtocol": true}) != "" {
+							bad = append(bad, fmt.Sprintf("%s writes BackendInfo.%s at %s", name, st.Field(i).Name(), p.Pos(a.Instr.Pos())))
+						}
+					}
+				}
+			}
+		}
+		r.Check("R3-cost-selection", "BackendInfo (cost, per-node costs, allow-list): never written by a session", token.NoPos, bi != nil && len(bad) == 0,
+			fmt.Sprintf("%d write(s) of BackendInfo fields, none in runProtocol or its helpers (only the option functions passed to AddBackend)", n),
+			strings.Join(bad, "; ")+": the policy object is shared by every session of the backend, so one peer's override changes the cost (or admission) of all other peers")
+	}
+	// R7b the duplicate-ID answer is given for every copy: the own-ID test is not behind the
+	// update-ID dedup (relays are repaired only by repeated notices)
+	{
+		seenF := p.Field("netceptor", "Netceptor", "seenUpdates")
+		var lookups []ssa.Instruction
+		for _, a := range engine.FieldAccessesIn(hru, seenF) {
+			if a.Kind == engine.AccMapLookup {
+				lookups = append(lookups, a.Instr)
+			}
+		}
+		selfE, notSelf := valEqEdges(hru, fieldLoadIs(p.Field("netceptor", "routingUpdate", "NodeID")), fieldLoadIs(nodeID))
+		ok := len(lookups) > 0 && len(selfE) > 0
+		// with the 'not our ID' outcomes removed, the dedup lookup is unreachable: updates naming our ID never pass through it
+		if ok {
+			cut := engine.EdgeSet{}.Add(notSelf...)
+			if engine.Reach(hru, nil, cut, nil, func(in ssa.Instruction) bool { return isOneOf(in, lookups) }) != nil {
+				ok = false
+			}
+		}
+		r.Check("R7-duplicate", "handleRoutingUpdate: updates naming our own ID are judged before (and independently of) the update-ID dedup", hru.Pos(), ok,
+			"with the ri.NodeID != s.nodeID outcomes removed the seenUpdates lookup is unreachable: every copy of a duplicate's update is answered", "an update naming our own ID can be dropped as 'already seen' before the duplicate test: only the first copy is answered, and a relay that got the notice too early keeps the duplicate's epoch and discards this node's later updates as stale")
 	}
 	// R7 duplicate node: Shutdown only under SuspectedDuplicate == s.epoch
 	sd := p.Field("netceptor", "routingUpdate", "SuspectedDuplicate")
